@@ -172,7 +172,7 @@ class _PosColumn:
 
 
 def _sym_world(w, h, d):
-    env = E.DiscreteWorld.__new__(E.DiscreteWorld)
+    env = E.DiscreteWorld(Model(), 1, 1, 1)        # real constructor first: whatever state __init__ sets up exists
     env.width, env.height, env.depth = w, h, d
     env.cells = _Cells(w, h, d)
     env._index_offset = 1
@@ -445,8 +445,7 @@ def neighbours_id_centre(ctx):
     for (cw, ch, cd) in itertools.product(range(N + 1), repeat=3):
         real = E.DiscreteWorld(Model(), cw, ch, cd)
         table = [tuple(int(c) for c in p) for p in real.cells['pos']]
-        env = E.DiscreteWorld.__new__(E.DiscreteWorld)
-        env.width, env.height, env.depth = cw, ch, cd
+        env = E.DiscreteWorld(Model(), cw, ch, cd)
         env.cells = _RealCells(table)
         K = Interp(unroll=N + 1)
         fn = env.get_moore_neighbours if kind == "moore" else env.get_neumann_neighbours
